@@ -408,8 +408,17 @@ def closure_invariants(api):
             bad.append('linearize_aliases of %s is not a permutation of aliases' % ns.name)
         posa = {id(x): i for i, x in enumerate(lina)}
         for x in lina:
-            if isinstance(x.data_type, dt.Alias) and x.data_type.namespace is ns and posa.get(id(x.data_type), -1) > posa[id(x)]:
-                bad.append('linearize_aliases of %s puts %s before its target' % (ns.name, x.name))
+            # every alias that the target expression of x mentions (directly or inside List / Map / Nullable) comes before x
+            stack = [x.data_type]
+            while stack:
+                y = stack.pop()
+                if isinstance(y, dt.Alias):
+                    if y.namespace is ns and posa.get(id(y), -1) > posa[id(x)]:
+                        bad.append('linearize_aliases of %s puts %s before its target' % (ns.name, x.name))
+                elif isinstance(y, (dt.List, dt.Nullable)):
+                    stack.append(y.data_type)
+                elif isinstance(y, dt.Map):
+                    stack.append(y.value_data_type)
         for d in ns.data_types:
             visit_type(d, ns.name)
             if d.namespace is not ns:
